@@ -458,6 +458,14 @@ theorem Environmental_Decode_nil_3 (v : Bytes) :
         rcases e with _ | e
         · simp [getError, h0]; cases getErrorEnv o' <;> simp
         · cases e <;> simp [h0]
+
+/-- the accessors: a non-nil receiver hands out (a view of) itself, the nil receiver answers nil without dereferencing -/
+theorem accessors_3 (o : Obj3) :
+    Gen.D3.Base_BaseMetrics o = some (o, true) ∧ Gen.D3.Temporal_BaseMetrics o = some (o, true) ∧
+    Gen.D3.Environmental_BaseMetrics o = some (o, true) ∧ Gen.D3.Environmental_TemporalMetrics o = some (o, true) ∧
+    Gen.D3.Base_BaseMetrics_nil = some (none, false) ∧ Gen.D3.Temporal_BaseMetrics_nil = some (none, false) ∧
+    Gen.D3.Environmental_BaseMetrics_nil = some (none, false) ∧ Gen.D3.Environmental_TemporalMetrics_nil = some (none, false) :=
+  ⟨rfl, rfl, rfl, rfl, rfl, rfl, rfl, rfl⟩
 end v3
 
 section v2
@@ -765,6 +773,13 @@ theorem nil_receivers_2 :
     Gen.D2.Temporal_IsEmpty_nil = none ∧ Gen.D2.Environmental_IsEmpty_nil = none :=
   ⟨rfl, rfl, rfl, rfl, rfl, rfl, rfl, rfl, rfl, rfl, rfl⟩
 
+
+theorem accessors_2 (o : Obj2) :
+    Gen.D2.Temporal_BaseMetrics o = some (o, true) ∧ Gen.D2.Environmental_BaseMetrics o = some (o, true) ∧
+    Gen.D2.Environmental_TemporalMetrics o = some (o, true) ∧
+    Gen.D2.Temporal_BaseMetrics_nil = some (none, false) ∧ Gen.D2.Environmental_BaseMetrics_nil = some (none, false) ∧
+    Gen.D2.Environmental_TemporalMetrics_nil = some (none, false) :=
+  ⟨rfl, rfl, rfl, rfl, rfl, rfl⟩
 end v2
 
 /-- the obligation of the `names` abstraction: every `x.names[k] = true` of the source writes, into the map of the struct of
